@@ -370,9 +370,6 @@ theorem Bay.WF.muxSetDefault {b b' : Bay} {mi : Nat} {v : Value} (wf : b.WF)
 
 /-! ### a freshly connected mux -/
 
-/-- No `cb_input` callback is enabled anywhere (true until the first propagation). -/
-def Bay.NoInputCbs (b : Bay) : Prop := ∀ (c mj i : Nat), Cb.muxInput mj i ∉ b.cbsOf c
-
 /-- Before the first event: every channel null, no input enabled.  A mux
     whose default is null is then (weakly) in sync: output null = default. -/
 theorem Bay.MuxSync.ofFresh {b : Bay} {mi : Nat} {m : Mux} (hno : b.NoInputCbs)
